@@ -22,6 +22,8 @@ ASSUME = [
     "(finding connect-before-deferred-disconnected); disconnect requests only while connecting/connected "
     "(property text); stanzas only on an up connection with a login exchange in progress",
     "the tie model<->code is differential testing on in-domain histories (exhaustive up to a length, random beyond)",
+    "the oracle's reconnect clause counts dispatchers created at events other than a connect request / call as "
+    "connections opened by the stack on its own, and reads YowNetworkLayer.state (anchored state) after session-ending events",
 ]
 
 # history symbols: (tag, arg) as in C16Run.dec_event
@@ -106,7 +108,10 @@ class Oracle(object):
         self.opts = opts
         self.mon = "idle"            # attempts as seen at P0: idle / attempt / up
         self.ann = {p: [] for p in range(4)}
-        self.expect_reconnect = False
+        self.expect_reconnect = False   # a stream error that calls for a reconnect has not been followed up yet
+        self.auto_creates = 0           # connections the stack opened on its own (not at a connect request/call)
+        self.recon_errors = 0           # stream errors that call for a reconnect (not a conflict, option on)
+        self.down = None                # set by an event that ends the session for good, until the next connect request
         self.alive = False
         self.outstanding = None
         self.next_ping = 0
@@ -118,6 +123,7 @@ class Oracle(object):
 
     def step(self, sym, obs, rig, noise_before):
         tag, arg = sym
+        mon_before = self.mon
         per = canon_impl(obs)
         probes = {p: per.get(p, []) for p in range(4)}
         disp = per.get(c16rig.OBS_DISP, [])
@@ -162,7 +168,6 @@ class Oracle(object):
                 self.bad("login started with noise state %r" % noise_before)
             if [it for it in disp if it[0] == c16rig.D_WRITE] != [[c16rig.D_WRITE, c16rig.W_HEADER, 0, 1]]:
                 self.bad("login did not start with exactly the protocol header on the wire")
-            self.expect_reconnect = False
         elif any(n_conn) or any(n_auth) or hs:
             self.bad("CONNECTED / auth / handshake without a dispatcher-connected event")
         # --- authenticated announced once per success
@@ -184,15 +189,40 @@ class Oracle(object):
                 self.bad("%s did not close the connection" % NAMES[tag])
             if tag == E_STREAM_ERROR:
                 self.expect_reconnect = self.opts.eff_reconnect() and c16rig.KINDS[arg] != "conflict"
-        # --- automatic reconnect
-        created = [c16rig.D_CREATE] in disp
+                if self.expect_reconnect:
+                    self.recon_errors += 1
+        # --- automatic reconnect: once per stream error that calls for it, for no other reason, and a
+        #     session that ended without such a stream error stays down until the application asks
+        n_created = sum(1 for it in disp if it == [c16rig.D_CREATE])
+        created = n_created > 0
+        if tag in (E_CONNECT_REQ, E_CONNECT_CALL):
+            self.down = None
+        else:
+            self.auto_creates += n_created
+        if tag in (E_DISCONNECT_REQ, E_FAILURE) or (tag == E_STREAM_ERROR and not self.expect_reconnect) or \
+                (tag in (E_SOCK_ERROR, E_PEER_CLOSE) and mon_before != "idle"):
+            self.down = NAMES[tag] + (" while the connection was being established" if mon_before == "attempt"
+                                      else "")
         if tag == E_LOOP:
             if any(it[0] == c16rig.EV_DISCONNECTED for it in probes[3]):
                 if created != self.expect_reconnect:
-                    self.bad("automatic reconnect %s" % ("missing" if self.expect_reconnect else "unexpected"))
+                    self.bad("automatic reconnect %s: the DISCONNECTED that reached the application %s a stream "
+                             "error calling for a reconnect, and the stack opened %d connection(s) on its own"
+                             % ("missing" if self.expect_reconnect else "unexpected",
+                                "followed" if self.expect_reconnect else "did not follow", n_created))
                 self.expect_reconnect = False
         elif created and tag not in (E_CONNECT_REQ, E_CONNECT_CALL):
             self.bad("a connection was opened at %s" % NAMES[tag])
+        if self.auto_creates + (1 if self.expect_reconnect else 0) != self.recon_errors:
+            self.bad("the stack has opened %d connection(s) on its own (%d more pending) after %d stream error(s) "
+                     "that call for a reconnect" % (self.auto_creates, 1 if self.expect_reconnect else 0,
+                                                    self.recon_errors))
+        if self.down is not None:
+            if rig.net.state != 0 or self.mon != "idle" or created:
+                self.bad("after %s the stack must stay DISCONNECTED until the application asks for a connection, "
+                         "but after %s the network layer is in state %r%s"
+                         % (self.down, NAMES[tag], rig.net.state,
+                            " and a connection was opened" if created else ""))
         # --- keep-alive
         timeout = any(it == [c16rig.EV_DISCONNECT, c16rig.R_PING] for it in probes[3])
         if tag == E_TICK and self.alive:
@@ -330,6 +360,66 @@ def gen_random(rng, n):
     return h
 
 
+# ways in which a connection attempt (in particular the automatic reconnect attempt) can go on
+OUTCOMES = [
+    [(E_SOCK_ERROR, 0), (E_LOOP, 0)],                      # socket error while CONNECTING
+    [(E_PEER_CLOSE, 0), (E_LOOP, 0)],                      # peer close while CONNECTING
+    [(E_DISCONNECT_REQ, 0), (E_LOOP, 0)],                  # the application gives up while CONNECTING
+    [(E_SOCK_ERROR, 0), (E_PEER_CLOSE, 0), (E_TICK, 0), (E_LOOP, 0)],
+    [(E_DISP_CONNECTED, 0), (E_STREAM_ERROR, 1), (E_LOOP, 0)],             # up, fails again before the login
+    [(E_DISP_CONNECTED, 0), (E_SUCCESS, 0), (E_STREAM_ERROR, 2), (E_LOOP, 0)],
+    [(E_DISP_CONNECTED, 0), (E_STREAM_ERROR, 0), (E_LOOP, 0)],             # conflict ends the retries
+    [(E_DISP_CONNECTED, 0), (E_FAILURE, 0), (E_LOOP, 0)],
+    [(E_DISP_CONNECTED, 0), (E_SUCCESS, 0), (E_PEER_CLOSE, 0), (E_LOOP, 0)],
+    [(E_DISP_CONNECTED, 0), (E_SUCCESS, 0), (E_DISCONNECT_REQ, 0), (E_LOOP, 0)],
+    [(E_TICK, 0)],
+    [(E_CONNECT_REQ, 0)],                                  # the application asks again
+]
+
+
+def gen_reconnect_family(depth):
+    """stream error (each kind) on a fresh / logged-in connection, the loop run that may reconnect, then every
+    sequence of up to `depth` OUTCOMES, then one more session attempt by the application"""
+    out = []
+    for prefix in ([(E_CONNECT_REQ, 0), (E_DISP_CONNECTED, 0)],
+                   [(E_CONNECT_REQ, 0), (E_DISP_CONNECTED, 0), (E_SUCCESS, 0), (E_TICK, 0)]):
+        for k in range(3):
+            head = prefix + [(E_STREAM_ERROR, k), (E_LOOP, 0)]
+            for d in range(1, depth + 1):
+                for seq in itertools.product(range(len(OUTCOMES)), repeat=d):
+                    h = list(head)
+                    for i in seq:
+                        h += OUTCOMES[i]
+                    out.append(h + [(E_LOOP, 0), (E_CONNECT_REQ, 0), (E_DISP_CONNECTED, 0), (E_SUCCESS, 0)])
+    return out
+
+
+EXT_ALPHABET = [(E_LOOP, 0), (E_SOCK_ERROR, 0), (E_DISCONNECT_REQ, 0), (E_DISP_CONNECTED, 0), (E_TICK, 0),
+                (E_SUCCESS, 0), (E_CONNECT_REQ, 0), (E_PEER_CLOSE, 0), (E_STREAM_ERROR, 1), (E_STREAM_ERROR, 0),
+                (E_FAILURE, 0), (E_APP_SEND, 0)]
+
+
+def find_failing_extension(model, mods, opts, fixes, prefix, depth=3):
+    """the implementation differs from the model after `prefix` but the property's oracle has not failed yet:
+    look for a continuation (inside the model's domain) on which the oracle does fail"""
+    for d in range(1, depth + 1):
+        cands = [list(prefix) + list(suf) for suf in itertools.product(EXT_ALPHABET, repeat=d)]
+        filt = model.call_many("run_filter", [[opts.cfg(*fixes), [list(x) for x in h]] for h in cands])
+        seen = set()
+        for h, ms in zip(cands, filt):
+            kept = [h[m[0]] for m in ms]
+            if len(kept) <= len(prefix) or tuple(kept) in seen:
+                continue
+            seen.add(tuple(kept))
+            try:
+                _, ofail = run_impl(mods, opts, kept)
+            except Exception:
+                continue
+            if ofail is not None:
+                return kept
+    return None
+
+
 def enumerate_domain(model, cfg, maxlen):
     """all in-domain histories up to maxlen over ALPHABET (DFS, enabledness asked from the model)"""
     out = []
@@ -364,6 +454,8 @@ def run(ctx):
                                        "destroyConnection_state_guard": fix_destroy}
     evals, distinct, nontrivial, mism = 0, set(), 0, 0
     kinds = {}
+    ext_budget, ext_cache = [4], {}
+    reported, n_reports = set(), [0]
 
     def record(kept, opts):
         nonlocal nontrivial
@@ -379,6 +471,19 @@ def run(ctx):
         nonlocal mism
         if diff is not None:
             mism += 1
+        ek = (tuple(sorted(opts.as_dict().items())), tuple(kept[:diff["step"] + 1])) if diff is not None else None
+        if model is not None and key is None and diff is not None and ofail is None and \
+                (ek in ext_cache or ext_budget[0] > 0):
+            # the code no longer follows the model: look for a history on which the property itself fails
+            if ek not in ext_cache:
+                ext_budget[0] -= 1
+                ext_cache[ek] = find_failing_extension(model, mods, opts, fixes, kept[:diff["step"] + 1],
+                                                       depth=3 if ctx.tier == "quick" else 4)
+            ext = ext_cache[ek]
+            if ext is not None:
+                k2, d2, o2 = check_history(model, mods, opts, fixes, ext)
+                if o2 is not None:
+                    kind, hist, kept, diff, ofail = kind + "+ext", ext, k2, d2, o2
         if model is not None and key is None:
             # keep a failing input of the property itself if there is one, else the model/code difference
             pred = (lambda d, o: o is not None) if ofail is not None else (lambda d, o: d is not None)
@@ -386,7 +491,11 @@ def run(ctx):
             k2, d2, o2 = check_history(model, mods, opts, fixes, small)
             if pred(d2, o2):
                 kept, diff, ofail = k2, d2, o2
-        name = ("correspondence:C16.step" if diff is not None else "oracle:C16.lifecycle")
+        rk = (tuple(kept), tuple(sorted(opts.as_dict().items())), ofail is not None)
+        if rk in reported:
+            return
+        reported.add(rk)
+        name = ("oracle:C16.lifecycle" if ofail is not None else "correspondence:C16.step")
         ctx.violation(name, {"kind": kind, "options": opts.as_dict(), "guards": list(fixes),
                              "history": hist_json(kept), "difference": diff, "oracle": ofail},
                       found_input=ofail is not None, key=key)
@@ -427,6 +536,15 @@ def run(ctx):
                 for s in (True,)] + [Opts(False, False, True, False)]
     cases = []
     if model is not None:
+        # reconnect bookkeeping: what happens to the automatic reconnect attempt, repeated failures, options
+        fam = gen_reconnect_family(2 if ctx.tier == "quick" else 3)
+        fam_opts = [Opts(True, False, True), Opts(False, False, True), Opts(False, True, False, False)]
+        if ctx.tier != "quick":
+            fam_opts.append(Opts(True, True, False))
+        for o in fam_opts:
+            cases += [("reconnect", o, h) for h in fam]
+        ctx.coverage["reconnect_family_histories"] = len(cases)
+        n_fam = len(cases)
         exh_len = 4 if ctx.tier == "quick" else 5
         o = Opts(True, False, True)
         hs = enumerate_domain(model, o.cfg(*fixes), exh_len)
@@ -435,7 +553,7 @@ def run(ctx):
             o2 = Opts(False, True, True)
             cases += [("exh", o2, h) for h in enumerate_domain(model, o2.cfg(*fixes), 4)]
         ctx.coverage["exhaustive_len"] = exh_len
-        ctx.coverage["exhaustive_histories"] = len(cases)
+        ctx.coverage["exhaustive_histories"] = len(cases) - n_fam
         nrand = 1000 if ctx.tier == "quick" else 30000
         for i in range(nrand):
             o = rng.choice(all_opts)
@@ -452,7 +570,7 @@ def run(ctx):
         for (kind, o, h), ms in zip(cases, filt):
             kept = [h[m[0]] for m in ms]
             key = (tuple(kept), tuple(sorted(o.as_dict().items())))
-            if key in distinct and kind == "rand":
+            if key in distinct and kind in ("rand", "reconnect"):
                 continue
             impl, ofail = run_impl(mods, o, kept)
             evals += 1
@@ -460,7 +578,8 @@ def run(ctx):
             diff = compare(ms, impl)
             if diff is not None or ofail is not None:
                 report(kind, o, h, kept, diff, ofail)
-                if len(ctx.violations) >= 5:
+                n_reports[0] += 1
+                if len(ctx.violations) >= 5 or n_reports[0] >= 12:
                     break
             if evals % 499 == 0:
                 ctx.add_sample({"options": o.as_dict(), "history": hist_json(kept)[:12],
@@ -488,7 +607,10 @@ def run(ctx):
     ctx.coverage["exhaustive"] = False
     return ctx.finish(
         rule="case = (options, in-domain event history); candidate histories are filtered by the model's own "
-             "domain predicate; exhaustive over the 16-symbol alphabet up to the stated length, seeded random "
+             "domain predicate; reconnect family (stream error of each kind, then every sequence of up to 2 quick / 3 "
+             "thorough outcomes of the following connection attempts: socket error / peer close / disconnect request "
+             "while CONNECTING, failing again, conflict, login failure, application reconnect; option on / off / "
+             "unset), exhaustive over the 16-symbol alphabet up to the stated length, seeded random "
              "histories of 6..40 candidate events over all option combinations, scripted multi-session runs; "
              "every step's observations (per observer: 4 probes, dispatcher calls, handshake starts, application "
              "entities, escaped exceptions) and state are compared with the extracted model; non-trivial = "
